@@ -66,6 +66,16 @@ def expected(case, obs, temp):
 
 def replay(case):
     import opendsm.eemeter as em
+    if case.get("kind") == "hourly":
+        return hourly_case(case)
+    if case.get("kind") == "all_blank_usage":
+        di = pd.date_range("2022-01-01", periods=365, freq="D", tz="America/Chicago")
+        try:
+            d = em.DailyBaselineData(pd.DataFrame({"temperature": 55.0 + np.arange(365) % 30, "observed": np.nan}, index=di), is_electricity_data=True)
+        except Exception as e:  # noqa
+            return {"ok": False, "problems": [f"well-formed input rejected: {type(e).__name__}: {e}"]}
+        dq = {w.qualified_name for w in d.disqualification}
+        return {"ok": P + "no_data" in dq, "problems": [f"disqualifications {sorted(dq)}: no_data expected"]}
     obs, temp = build(case)
     cls = em.DailyReportingData if case["reporting"] else em.DailyBaselineData
     bad = []
@@ -114,6 +124,8 @@ def hourly_case(case):
         df.iloc[a:a + k, df.columns.get_loc(col)] = np.nan
     if case.get("negative"):
         df.iloc[200, df.columns.get_loc("observed")] = -3.0
+    if case.get("no_usage"):
+        df = df.drop(columns=["observed"])          # usage is optional for reporting data
     rep = case["reporting"]
     cls = em.HourlyReportingData if rep else em.HourlyBaselineData
     try:
@@ -126,6 +138,8 @@ def hourly_case(case):
     grid = pd.date_range(first.tz_localize(None), last.tz_localize(None), freq="h", inclusive="left").tz_localize(tz, ambiguous="NaT", nonexistent="NaT")
     grid = pd.date_range(first, periods=int(round((last - first) / pd.Timedelta(hours=1))), freq="h")
     full = df.reindex(grid)
+    if "observed" not in full.columns:
+        full["observed"] = np.nan
     exp = set()
     both = full["temperature"].notna() & (full["observed"].notna() if not rep else True)
     n_total = (both[both].index.max() - both[both].index.min()).days + 1
@@ -163,6 +177,10 @@ def hourly_cases(tier):
         cases.append({"kind": "hourly", "reporting": rep, "hours": 8760 + 48})
         cases.append({"kind": "hourly", "reporting": rep, "hours": 328 * 24})
         cases.append({"kind": "hourly", "reporting": rep, "negative": True, "electric": False})
+        if rep:
+            cases.append({"kind": "hourly", "reporting": True, "no_usage": True})                                   # temperature-only reporting data
+            cases.append({"kind": "hourly", "reporting": True, "gaps": {"observed": [24 * 100, 24 * 60]}})           # a 60-day usage gap does not matter for reporting
+            cases.append({"kind": "hourly", "reporting": True, "no_usage": True, "gaps": {"temperature": [24 * 100, 24 * 50]}})
         for k in (71, 72, 73):
             for col in ("temperature", "observed", "ghi"):
                 if rep and col == "observed":
@@ -230,6 +248,17 @@ def run(tier="quick", seed=0):
             import traceback
             r = {"ok": False, "problems": [f"harness exception {type(e).__name__}: {e}", traceback.format_exc()[-500:]]}
         b.case("C10.boundary", case, r["ok"], nontrivial_key=str(case), detail=r["problems"])
+    # a baseline whose usage is entirely missing is accepted and reported as "no data"
+    for entry in ("frame",):
+        try:
+            import opendsm.eemeter as em
+            di = pd.date_range("2022-01-01", periods=365, freq="D", tz="America/Chicago")
+            d = em.DailyBaselineData(pd.DataFrame({"temperature": 55.0 + np.arange(365) % 30, "observed": np.nan}, index=di), is_electricity_data=True)
+            dq = {w.qualified_name for w in d.disqualification}
+            b.case("C10.boundary", {"kind": "all_blank_usage", "entry": entry}, P + "no_data" in dq, nontrivial_key="all_blank_usage",
+                   detail=f"disqualifications {sorted(dq)}: no_data expected")
+        except Exception as e:  # noqa
+            b.case("C10.boundary", {"kind": "all_blank_usage", "entry": entry}, False, nontrivial_key="all_blank_usage", detail=f"well-formed input rejected: {type(e).__name__}: {e}")
     # billing: an off-cycle read is reported as a warning, not as a disqualification (known finding when it disqualifies)
     try:
         import opendsm.eemeter as em
